@@ -1,6 +1,6 @@
 SPECIFICATION Spec
 CONSTANTS
-  ClearOnError = FALSE
+  ClearOnError = TRUE
   Full = TRUE
   Emit = TRUE
 INVARIANT Balanced
